@@ -182,7 +182,9 @@ def gen_hist_catalog(rng, N, B, weighted=True, distinct=False):
     return edges, rows, obs
 
 
-def hist_from_catalog(ctx, tag, edges, rows, weighted, closed="right"):
+def hist_from_catalog(ctx, tag, edges, rows, weighted, closed="right", workers=1, sched_seed=0):
+    """workers > 1: the histogram is computed on the simulated pool (harness/sim/pool.py) with that many workers and a
+    seeded completion order - sample k is the histogram without patch k however the work is handed out"""
     import pandas as pd
     df = pd.DataFrame(rows, columns=["ra", "dec", "z", "pid", "w"])
     cache = impl.fresh_dir(ctx, "cat_%s" % tag)
@@ -191,7 +193,15 @@ def hist_from_catalog(ctx, tag, edges, rows, weighted, closed="right"):
         kw["weight_name"] = "w"
     try:
         cat = impl.Catalog.from_dataframe(cache, df, **kw)
-        return HistData.from_catalog(cat, BinningConfig.create(edges=edges, closed=closed), max_workers=1)
+        if workers <= 1:
+            return HistData.from_catalog(cat, BinningConfig.create(edges=edges, closed=closed), max_workers=1)
+        from sim import pool as simpool
+        impl.set_threads(workers)
+        try:
+            with simpool.patched(simpool.Schedule("random", seed=sched_seed)):
+                return HistData.from_catalog(cat, BinningConfig.create(edges=edges, closed=closed), max_workers=workers)
+        finally:
+            impl.set_threads(1)
     finally:
         shutil.rmtree(cache, ignore_errors=True)
 
